@@ -44,6 +44,7 @@ func facts(f *hc.Facts) {
 	} else {
 		unbuf, abandon, deferred, useDialCtx, remainLen, retOnce, single := false, false, false, false, false, false, false
 		dialCtxFromCtx := false
+		ownCtx, dialsWith, watches := "", "", ""
 		ast.Inspect(fd.Body, func(n ast.Node) bool {
 			switch x := n.(type) {
 			case *ast.AssignStmt:
@@ -67,6 +68,16 @@ func facts(f *hc.Facts) {
 				// tryDial := func(ctx, option) { conn, err := dialTransport; select { send | <-ctx.Done(): close } }
 				if len(x.Lhs) == 1 && f.Src(x.Lhs[0]) == "tryDial" {
 					if fl, ok := x.Rhs[0].(*ast.FuncLit); ok {
+						// the context the closure watches must be its own first parameter, the one it dials with
+						if ps := fl.Type.Params; ps != nil && len(ps.List) >= 1 && len(ps.List[0].Names) == 1 {
+							ownCtx = ps.List[0].Names[0].Name
+						}
+						ast.Inspect(fl.Body, func(m ast.Node) bool {
+							if ce, ok := m.(*ast.CallExpr); ok && f.Src(ce.Fun) == "p.dialTransport" && len(ce.Args) >= 1 {
+								dialsWith = f.Src(ce.Args[0])
+							}
+							return true
+						})
 						ast.Inspect(fl.Body, func(m ast.Node) bool {
 							sel, ok := m.(*ast.SelectStmt)
 							if !ok {
@@ -77,6 +88,9 @@ func facts(f *hc.Facts) {
 							}
 							for _, cc := range sel.Body.List {
 								c := cc.(*ast.CommClause)
+								if es, ok := c.Comm.(*ast.ExprStmt); ok && strings.HasPrefix(f.Src(es.X), "<-") && strings.HasSuffix(f.Src(es.X), ".Done()") {
+									watches = strings.TrimSuffix(strings.TrimPrefix(f.Src(es.X), "<-"), ".Done()")
+								}
 								if es, ok := c.Comm.(*ast.ExprStmt); ok && f.Src(es.X) == "<-ctx.Done()" {
 									src := ""
 									for _, st := range c.Body {
@@ -120,7 +134,8 @@ func facts(f *hc.Facts) {
 			return true
 		})
 		f.Bool("resultsUnbuffered", unbuf, "plain.connect: results := make(chan dialResult) has no capacity")
-		f.Bool("abandonCloses", abandon, "tryDial: the <-ctx.Done() branch closes a non-nil conn; the select has exactly two branches")
+		f.Bool("abandonCloses", abandon && ownCtx != "" && watches == ownCtx && dialsWith == ownCtx,
+			fmt.Sprintf("tryDial: the select has exactly two branches; the Done branch watches the closure's own context parameter (param %q, dials with %q, watches %q) and closes a non-nil conn", ownCtx, dialsWith, watches))
 		f.Bool("dialCancelDeferred", deferred && dialCtxFromCtx, "dialCtx, dialCancel := context.WithCancel(ctx); defer dialCancel()")
 		f.Bool("dialersUseDialCtx", useDialCtx, "go tryDial(dialCtx, dcOption)")
 		f.Bool("remainFromLen", remainLen, "remain := len(dcOptions)")
@@ -198,7 +213,7 @@ func parseScript(line string) (script, error) {
 		}
 	}
 	var err error
-	if s.n, err = strconv.Atoi(kv["n"]); err != nil || s.n < 2 || s.n > 16 {
+	if s.n, err = strconv.Atoi(kv["n"]); err != nil || s.n < 1 || s.n > 16 {
 		return s, fmt.Errorf("bad n")
 	}
 	for _, w := range strings.Split(kv["out"], ",") {
@@ -361,7 +376,9 @@ var slowFailures atomic.Int64
 
 func patience() time.Duration {
 	if slowFailures.Load() >= 3 {
-		return 2 * time.Second
+		// three cases have genuinely timed out with the long watchdog: the verdict is settled, the rest of
+		// the run only has to terminate
+		return 150 * time.Millisecond
 	}
 	return 30 * time.Second
 }
@@ -744,6 +761,7 @@ func run(c *hc.Ctx) error {
 			scripts = append(scripts, s)
 		}
 	} else {
+		scripts = append(scripts, exhaustive(1, true)...) // the single-address path dials directly
 		scripts = append(scripts, exhaustive(2, true)...)
 		scripts = append(scripts, exhaustive(3, c.Thorough())...)
 		if c.Thorough() {
@@ -801,7 +819,6 @@ func run(c *hc.Ctx) error {
 	}
 	c.Res.Rule = "a case is one scripted race (per dialer: success / refusal / handshake failure, whether the dial honours its context; release order; optional caller cancel position; settle mode between releases = how much real time the goroutines get to interleave); all outcome vectors x release orders x cancel positions are enumerated for n=2,3 (and n=4 in thorough), n up to 8 random; non-trivial = at least two successful dials (a loser must be closed), or no success (combined error), or a caller cancel; distinct = distinct script"
 	c.PartialNote("goroutine scheduling below the granularity of dial completion / channel rendezvous is exercised by real timing (settle modes), not enumerated; deliveries of failures before a winning success are unobservable and replayed as abandoned dialers (a model-valid linearisation with the same observables)")
-	c.PartialNote("the single-address path (len(dcOptions)==1) dials directly and is outside the racing model; it is covered by the source fact singleDialsDirectly only")
 	ans, err := c.Drv.Batch(lines)
 	if err != nil {
 		return err
